@@ -289,7 +289,24 @@ func addErrorForms(rt *rapid.T, env *progen.Env, p *progen.Prog, used progen.Use
 				min = 1 // intermediate empty result lists hit the same defect
 			}
 			next := rlist(min, 3)
-			stages = append(stages, &progen.Sig{Params: unnamed(cur), Results: withErr(next)})
+			ps := unnamed(cur)
+			if i > 0 {
+				// a stage may take a wider type than the previous stage returns (interface{} for anything, the unnamed
+				// type for a named slice / map / pointer): results are passed on by position, not by type
+				for j := range ps {
+					if rapid.IntRange(0, 2).Draw(rt, "widen") != 0 {
+						continue
+					}
+					t := ps[j].Type
+					switch {
+					case t.Kind == progen.Named && !t.Decl.IsStruct && t.Decl.Under.Kind != progen.Basic && t.Alias == "" && rapid.Bool().Draw(rt, "widen-unnamed"):
+						ps[j].Type = t.Decl.Under
+					case t.Kind != progen.Iface:
+						ps[j].Type = progen.AnyT()
+					}
+				}
+			}
+			stages = append(stages, &progen.Sig{Params: ps, Results: withErr(next)})
 			cur = next
 		}
 		var key []string
